@@ -752,7 +752,7 @@ theorem fieldIndexGo_sound (view : Option String) (name : String) (fs : List HFi
     simp only [fieldIndexGo] at h
     by_cases hm : fieldMatches view name f = true
     · simp only [hm, if_true] at h
-      by_cases hj : (view.isNone && f.isJoin) = true
+      by_cases hj : joinWins view name f = true
       · simp only [hj, if_true, Except.ok.injEq] at h
         exact Or.inr ⟨0, f, rfl, by omega, hm⟩
       · simp only [hj, Bool.false_eq_true, if_false] at h
@@ -783,7 +783,8 @@ theorem fieldIndexGo_ambiguous (view : Option String) (name : String) (fs : List
       rcases hnj with h | h
       · exact Or.inl h
       · exact Or.inr (fun g hg => h g (List.mem_cons_of_mem _ hg))
-    have hj : (view.isNone && f.isJoin) = false := by
+    have hj : joinWins view name f = false := by
+      unfold joinWins
       rcases hnj with h | h
       · cases view with
         | none => simp at h
@@ -807,10 +808,10 @@ theorem fieldIndexGo_ambiguous (view : Option String) (name : String) (fs : List
 /-- an unqualified reference stops at the first join column of that name when nothing before it matches -/
 theorem fieldIndexGo_join_wins (name : String) (pre : List HField) (f : HField) (post : List HField) (i : Nat)
     (idx : Option Nat) (hpre : ∀ g, g ∈ pre → fieldMatches none name g = false)
-    (hf : fieldMatches none name f = true) (hj : f.isJoin = true) :
+    (hf : eqFold f.name name = true) (hj : f.isJoin = true) :
     fieldIndexGo none name (pre ++ f :: post) i idx = .ok (i + pre.length) := by
   induction pre generalizing i with
-  | nil => simp [fieldIndexGo, hf, hj]
+  | nil => simp [fieldIndexGo, fieldMatches, joinWins, hf, hj]
   | cons g gs ih =>
     have hg := hpre g (List.mem_cons_self ..)
     simp only [List.cons_append, fieldIndexGo, hg, Bool.false_eq_true, if_false]
